@@ -277,8 +277,13 @@ impl Driver for PoolDriver {
             }
             s += 4;
         }
+        let wpar: Vec<Value> = pool
+            .verif_waiting_parents()
+            .iter()
+            .map(|b| self.world.block_json(b))
+            .collect();
         json!({"hi": pool.finalized_slot().inner(), "fup": pool.verif_first_unpruned_slot().inner(),
-               "ret": retained, "fst": fst, "certs": certs, "ready": ready, "panic": ""})
+               "ret": retained, "fst": fst, "certs": certs, "ready": ready, "wpar": wpar, "panic": ""})
     }
 
     fn diff_out(&mut self, act: &Value, exp: &Value, got: &Value) -> Vec<String> {
@@ -386,6 +391,12 @@ impl Driver for PoolDriver {
             if canon(&exp[k]) != canon(&got[k]) {
                 d.push(k.to_string());
             }
+        }
+        // retained waiting entries must be among the parents the spec still tracks
+        if let (Some(e), Some(g)) = (exp["wpar"].as_array(), got["wpar"].as_array())
+            && g.iter().any(|x| !e.contains(x))
+        {
+            d.push("waiting".to_string());
         }
         d
     }
